@@ -359,6 +359,21 @@ def _get_or_make_region(
 
     position = parse_vtt_pct(value[0])
     if position is not None:
+
+      # the cue box cannot be larger than what fits on its side(s) of the position
+
+      if line_align == "center":
+        max_size = 2 * min(position, 100 - position)
+      elif line_align == "line-left":
+        max_size = 100 - position
+      else:
+        max_size = position
+
+      if writing_mode in (styles.WritingModeType.rltb, styles.WritingModeType.lrtb):
+        extent_width = min(extent_width, max_size)
+      else:
+        extent_height = min(extent_height, max_size)
+
       if line_align == "center":
         if writing_mode in (styles.WritingModeType.rltb, styles.WritingModeType.lrtb):
           origin_x = position - extent_width / 2
